@@ -70,8 +70,8 @@ def oracle(ctx, deep):
                 cap = c["cap"]
                 definite = [i for i, x in enumerate(capped) if x is True]
                 definite_not = [i for i, v in enumerate(atoms) if v in words and tmap.get(v, v) != v]
-                if cap in ("none", "weird", "") and definite:
-                    bad = "capitalised atom under scheme %r" % cap
+                if cap not in ("first", "all", "one", "random") and definite:
+                    bad = "capitalised atom under scheme %r (not one of the four capitalising schemes: selects no position)" % cap
                 elif cap == "first" and (any(i != 0 for i in definite) or 0 in definite_not):
                     bad = "scheme first: capitalisation is not exactly the first word"
                 elif cap == "all" and definite_not:
